@@ -44,6 +44,8 @@ def check(repo: Repo, R) -> None:
     R.run(absent_means_none, repo, R)
     # port order: the importer takes it from the order of the port entries inside `signals`; the exporter writes both lists
     from . import c06 as _c06
+    R.run(_c06.check, repo, shared.Retag(R, lambda r, k: "C11.5-external-modules-by-qualified-name" if k.endswith("name-reserved-before-children") else None,
+                                        "a module below another one of the same qualified name passes the name-conflict check while its parent is being exported: to_proto emits two modules of one name, which from_proto refuses (`Redefined Module`)"))
     R.run(_c06.check, repo, shared.Retag(R, lambda r: "C11.4-order-preserved" if r.startswith("C06.3") else None,
                                         "the importer reads port order from the `signals` list: written in another order than `ports` (namespace order differs once a name was re-used), re-imported modules have their ports permuted, and positional netlists swap nets"))
     # connection order: the importer connects in the package's order through connect() and leaves `conns` alone afterwards
@@ -119,6 +121,18 @@ def inverse_tables(repo: Repo, R):
     fip = repo.func(F_IMPORT, "import_primitive_params")
     ed = pf.returned_mapping(fep)
     idd = pf.returned_mapping(fip)
+    if idd is None and ed is not None:
+        # the other way of writing the importer's side: every name is sent through a fixed renaming table
+        # (`{T.get(n, n): v for n, v in params.items()}`) — read as the mapping it applies to the exporter's names
+        for r_ in shared.returns_of(fip.node):
+            v_ = shared.prov(fip.node, r_.value) if r_.value is not None else None
+            if isinstance(v_, ast.DictComp) and len(v_.generators) == 1 and isinstance(v_.generators[0].target, ast.Tuple) and len(v_.generators[0].target.elts) == 2 and not v_.generators[0].ifs:
+                n_, x_ = [ast.unparse(e) for e in v_.generators[0].target.elts]
+                mk = pat.match(f"$T.get({n_}, {n_})", v_.key)
+                tab = shared.prov(fip.node, mk["T"]) if mk is not None else None
+                if mk is not None and ast.unparse(v_.value) == x_ and isinstance(tab, ast.Dict) and all(au.str_const(k_) and au.str_const(w_) for k_, w_ in zip(tab.keys, tab.values)):
+                    t_ = {au.str_const(k_): au.str_const(w_) for k_, w_ in zip(tab.keys, tab.values)}
+                    idd = {t_.get(k_, k_): f"params.get('{k_}')" for k_ in ed}
     if ed is None or idd is None:
         raise AnalysisError("idiom-unknown: pulse parameter renaming dicts")
     fields = pf.paramclass_fields(repo, F_PRIMS, "PulseVoltageSourceParams")
@@ -274,6 +288,15 @@ def order(repo: Repo, R):
         # a forward loop without early exits, or a comprehension without a filter (canonical form of an accumulation loop)
         ok = (len(loops) == 1 and not comps and not any(isinstance(x, (ast.Break, ast.Continue)) for x in ast.walk(loops[0]))) or (len(comps) == 1 and not loops and not comps[0].ifs)
         R.check(ok, rule, key_of(fi, it), fi.site, f"{what}: plain forward loop over `{it}`: {ok}", why="the re-exported package lists elements in another order, or drops some")
+        # ... and where the loop itself files the elements (`<list>.append(..)`), it files every one of them: no test decides
+        for lp in loops:
+            outer = len(shared.path_conditions(fi.node, lp))
+            for c_ in au.calls_in(lp):
+                if isinstance(c_.func, ast.Attribute) and c_.func.attr == "append" and len(c_.args) == 1:
+                    inner = shared.path_conditions(fi.node, c_)[outer:]
+                    R.check(not inner, rule, key_of(fi, f"{it}::every-element-filed"), fi.at(c_),
+                            f"{what}: each element of `{it}` is appended" + ("" if not inner else f" only when {' and '.join(('' if p_ else 'not ') + ast.unparse(t_)[:50] for t_, p_ in inner)}"),
+                            why="an element that compares equal to an earlier one (a literal stated twice) is dropped on import: the re-exported package has fewer elements than the original")
     # ports: order of the exported ports list must survive: ExternalModule port_list = list(signals.values()) keeps *signal* order
     ext_before = False
     body = [n for n in fimp.node.body if isinstance(n, ast.For)]
